@@ -45,6 +45,26 @@ def build_die(d: dict, entry: str = "tree"):
             return Die(path, nl), nl
         finally:
             os.remove(path)
+    elif entry == "tree_numpy":
+        # the same tree with its numbers as numpy.float64 (what a numpy-based generator hands over) / Python ints where the value allows
+        import numpy as np
+
+        def conv(v, k):
+            if isinstance(v, bool) or not isinstance(v, (int, float)):
+                return v
+            if k % 3 == 0:
+                return np.float64(v)
+            if k % 3 == 1 and float(v).is_integer():
+                return int(v)
+            return np.float64(v)
+        t = gd.die_tree(d)
+        k0 = int(d["W"] * 7) % 5
+        src = {}
+        for key, val in t.items():
+            if key == "regions":
+                src[key] = [[conv(v, k0 + i + j) for j, v in enumerate(r)] for i, r in enumerate(val)]
+            else:
+                src[key] = conv(val, k0 + len(src))
     else:
         src = gd.die_tree(d)
     return Die(src, nl), nl
